@@ -5,5 +5,6 @@ CONSTANTS
   DEV_NoReindexOnNetworkTR = FALSE
   DEV_NoInvalidateCycle = FALSE
   DEV_MergeRebuildOnlyIfAll = TRUE
+  DEV_SetterSkipsSameObject = FALSE
 VIEW View
 INVARIANT InvFresh
